@@ -173,7 +173,7 @@ def check_common(run, res, P):
     for k, d in enumerate(net.deps):
         res.ev(P + ".time")
         start, end = times[k]
-        if d.arr.t > d.t - 8.0 * d.arr.size / cfg["rate"]:
+        if d.t < d.arr.t + 8.0 * d.arr.size / cfg["rate"]:
             res.bad(P + ".time", "%s:transmission-starts-before-arrival" % kind, "dep %d" % k)
             return False
         if d.t != end:
